@@ -4,6 +4,7 @@ import (
 	"bytes"
 	"encoding/gob"
 	"fmt"
+	"reflect"
 
 	"github.com/criyle/go-sandbox/pkg/unixsocket"
 )
@@ -21,6 +22,9 @@ type socket struct {
 
 	encoder  *gob.Encoder
 	sendBuff bytes.Buffer
+
+	// types whose gob definition has reached the peer
+	sentTypes map[reflect.Type]bool
 }
 
 // bufferRotator replace the underlying Buffers to avoid allocation
@@ -39,6 +43,7 @@ func newSocket(s *unixsocket.Socket) *socket {
 	soc.buff = make([]byte, bufferSize)
 	soc.decoder = gob.NewDecoder(&soc.recvBuff)
 	soc.encoder = gob.NewEncoder(&soc.sendBuff)
+	soc.sentTypes = make(map[reflect.Type]bool)
 
 	return &soc
 }
@@ -57,6 +62,20 @@ func (s *socket) RecvMsg(e any) (msg unixsocket.Msg, err error) {
 }
 
 func (s *socket) SendMsg(e any, msg unixsocket.Msg) error {
+	// The stream encoder emits the definition of a type with its first value and remembers
+	// that it did. If that first packet is then refused (too large), the peer never sees the
+	// definition and cannot decode any later value of the type. So size the first value of
+	// each type with a throw-away encoder before the stream encoder is touched.
+	t := reflect.TypeOf(e)
+	if !s.sentTypes[t] {
+		var trial bytes.Buffer
+		if err := gob.NewEncoder(&trial).Encode(e); err != nil {
+			return fmt.Errorf("send msg: encode: %w", err)
+		}
+		if trial.Len() > bufferSize {
+			return fmt.Errorf("send msg: payload too large: %d > %d", trial.Len(), bufferSize)
+		}
+	}
 	s.sendBuff.Reset()
 	if err := s.encoder.Encode(e); err != nil {
 		return fmt.Errorf("send msg: encode: %w", err)
@@ -66,7 +85,13 @@ func (s *socket) SendMsg(e any, msg unixsocket.Msg) error {
 	}
 
 	if err := s.Socket.SendMsg(s.sendBuff.Bytes(), msg); err != nil {
+		if len(s.sentTypes) == 0 {
+			// nothing has reached the peer yet: start the stream over, so that the
+			// definition goes out again with the next message
+			s.encoder = gob.NewEncoder(&s.sendBuff)
+		}
 		return fmt.Errorf("send msg: %w", err)
 	}
+	s.sentTypes[t] = true
 	return nil
 }
